@@ -806,7 +806,3 @@ func (c *FnCtx) selectStmt(x *ssa.Select) {
 	c.tuples[x] = ts
 }
 
-// ---------- taint hooks (C12 allocation bound, overflow) — filled in taint.go
-
-func (c *FnCtx) allocBoundCheck(pos token.Pos, size Term) {}
-func (c *FnCtx) overflowCheck(x *ssa.BinOp, exact Term)   {}
